@@ -233,14 +233,17 @@ class Op:
         return "EOp %s [%s] %s" % (self.name, ";".join("(" + a.coq(car) + ")" for a in self.args), nnlist(self.ia))
     def impl(self, env, dtype):
         if self.name in FACTORY_IMPL: return FACTORY_IMPL[self.name](self.ia, dtype)
+        if self.name == "OMprod" and getattr(self, "impl_modes", None) is not None:      # the same modes written with negative values for the implementation
+            a = [x.impl(env, dtype) for x in self.args]
+            return _mprod_impl(a, [list(self.impl_modes), self.ia[1]])
         if self.name == "OSum" and getattr(self, "int_index", False):      # the documented bare-int form of sum(index)
             return self.args[0].impl(env, dtype).sum(int(self.ia[0][0]))
         return IMPL_OPS[self.name]([a.impl(env, dtype) for a in self.args], self.ia)
     def dense(self, env, dtype):
         if self.name in FACTORY_DENSE: return FACTORY_DENSE[self.name](self.ia, dtype)
         return DENSE_OPS[self.name]([a.dense(env, dtype) for a in self.args], self.ia)
-    def desc(self): return dict({"op": self.name, "args": [a.desc() for a in self.args], "ia": self.ia}, **({"int_index": True} if getattr(self, "int_index", False) else {}))
-    def to_json(self): return dict({"op": self.name, "args": [a.to_json() for a in self.args], "ia": self.ia}, **({"int_index": True} if getattr(self, "int_index", False) else {}))
+    def desc(self): return dict({"op": self.name, "args": [a.desc() for a in self.args], "ia": self.ia}, **({"int_index": True} if getattr(self, "int_index", False) else {}), **({"impl_modes": list(self.impl_modes)} if getattr(self, "impl_modes", None) is not None else {}))
+    def to_json(self): return dict({"op": self.name, "args": [a.to_json() for a in self.args], "ia": self.ia}, **({"int_index": True} if getattr(self, "int_index", False) else {}), **({"impl_modes": list(self.impl_modes)} if getattr(self, "impl_modes", None) is not None else {}))
 
 
 def observe_impl(v):
